@@ -308,6 +308,14 @@ redo:
 				tok, ch = l.scanNumber(ch, true)
 			}
 		default:
+			if ch >= pathPrivate && ch < pathPrivate+rune(len(pathTok2)) {
+				// The parser reserves this range for its named tokens and
+				// would take the rune for one of them (U+E002 for "to", ...).
+				l.next()
+				l.errorf("invalid character %q", ch)
+				tok, ch = stopTok, stopTok
+				break
+			}
 			tok, ch = l.scanOperator(ch)
 		}
 	}
